@@ -13,15 +13,16 @@ import (
 
 // Mode c11p of the ROOT driver: partial updates (C11 / C07) through the generated X_PartialUpdate bindings of the root generator
 // (codegen/types/record_partial_update.go + restli/partial_update_utils.go).  The root generator's patch code is NOT the v2 code
-// (flat Delete_Fields / Set_Fields structs over the flattened fields, Delete_Fields is itself a Marshaler), so the Coq model
-// Codec/Patch.v (a transcription of the v2 generated code) does not apply: this mode is decided by an INDEPENDENT oracle written
-// from the property text and the Rest.li patch format alone:
+// (flat Delete_Fields / Set_Fields structs over the flattened fields, Delete_Fields is itself a Marshaler); it has its own Coq
+// model, Codec/RootPatch.v, evaluated on the cases this mode writes (Corr/RootPatchCorr.v), and it is decided by an INDEPENDENT
+// oracle written from the property text and the Rest.li patch format alone:
 //
 //   an assignment gives every field of the record a subset of {delete, set v, nested patch}; it is LEGAL iff every field carries at
-//   most one operation, only optional / defaulted fields are deleted, nested patches are legal, and no touched field is excluded.
-//   Encoding a legal assignment yields {"$delete":[names],"$set":{name:value},name:{nested}} (members present only when non-empty)
-//   and decoding that document yields the assignment back; encoding an illegal assignment and decoding a document that denotes
-//   one (including a $delete that names a REQUIRED field, which the Go struct cannot even express) must fail.
+//   most one operation, only optional / defaulted fields are deleted, nested patches are legal, no touched field is excluded (at any
+//   depth) and the set values are valid.  Encoding a legal assignment yields {"$delete":[names],"$set":{name:value},name:{nested}}
+//   (members present only when non-empty) and decoding that document yields the assignment back; encoding an illegal assignment and
+//   decoding a document that denotes one (including a $delete that names a REQUIRED field, which the Go struct cannot even
+//   express, and a $set value that carries an excluded member) must fail.
 
 type patOp struct {
 	del    bool
@@ -53,8 +54,11 @@ func (s *Schema) recordOf(t RType) string {
 	return ""
 }
 
-// why an assignment is illegal ("" = legal); excl = excluded top-level field names of THIS record
-func (s *Schema) patIllegal(p *pat, excl map[string]bool) string {
+func patOptional(f Field) bool { return f.IsOptional || f.DefaultValue != nil }
+
+// why an assignment is illegal ("" = legal); directives = the exclusion spec (relative to the outermost record), path = the field
+// names from the outermost record down to this one
+func (s *Schema) patIllegal(p *pat, directives []string, path []string) string {
 	if len(p.delNames) > 0 {
 		return "delete-required"
 	}
@@ -70,7 +74,8 @@ func (s *Schema) patIllegal(p *pat, excl map[string]bool) string {
 		if o.nested != nil {
 			k++
 		}
-		if k > 0 && excl[fs[i].Name] {
+		fp := append(append([]string{}, path...), fs[i].Name)
+		if k > 0 && specExcludes(directives, fp) {
 			return "excluded"
 		}
 		switch {
@@ -81,8 +86,11 @@ func (s *Schema) patIllegal(p *pat, excl map[string]bool) string {
 		case o.del && o.nested != nil:
 			return "delete+nested"
 		}
+		if o.set != nil && !s.validUnder(fs[i].Type, o.set, directives, fp) {
+			return "invalid-set-value"
+		}
 		if o.nested != nil {
-			if why := s.patIllegal(o.nested, nil); why != "" {
+			if why := s.patIllegal(o.nested, directives, fp); why != "" {
 				return why
 			}
 		}
@@ -90,16 +98,67 @@ func (s *Schema) patIllegal(p *pat, excl map[string]bool) string {
 	return ""
 }
 
-// mode: 0 legal only; 1 may carry one struct-expressible illegality; 2 (documents only) may delete a required field
+// does a set value carry something at an excluded path strictly below the field itself?  (the writer leaves it out; a reader
+// given the full document must refuse it)
+func (s *Schema) patCarries(p *pat, directives []string, path []string) bool {
+	fs := s.flatFieldsOf(p.rec)
+	var walk func(d *Doc, path []string, top bool) bool
+	walk = func(d *Doc, path []string, top bool) bool {
+		if !top && d.Kind != "null" && path[len(path)-1] != "*" && specExcludes(directives, path) {
+			return true
+		}
+		switch d.Kind {
+		case "obj":
+			for i, k := range d.Keys {
+				if walk(d.Items[i], append(append([]string{}, path...), k), false) {
+					return true
+				}
+			}
+		case "arr":
+			for _, x := range d.Items {
+				if walk(x, append(append([]string{}, path...), "*"), true) {
+					return true
+				}
+			}
+		}
+		return false
+	}
+	for i, o := range p.ops {
+		fp := append(append([]string{}, path...), fs[i].Name)
+		if o.set != nil && s.valid(fs[i].Type, o.set) && walk(s.refEncode(fs[i].Type, o.set), fp, true) {
+			return true
+		}
+		if o.nested != nil && s.patCarries(o.nested, directives, fp) {
+			return true
+		}
+	}
+	return false
+}
+
+func (s *Schema) patAllValid(p *pat) bool {
+	fs := s.flatFieldsOf(p.rec)
+	for i, o := range p.ops {
+		if o.set != nil && !s.valid(fs[i].Type, o.set) {
+			return false
+		}
+		if o.nested != nil && !s.patAllValid(o.nested) {
+			return false
+		}
+	}
+	return true
+}
+
+// mode: 0 legal only; 1 may carry one struct-expressible illegality; 2 (documents only) may delete a required field;
+// 3 one set value may violate a union / enum constraint
 func (s *Schema) genPat(r *hx.Rand, rec string, depth int, mode int, top bool) *pat {
 	fs := s.flatFieldsOf(rec)
 	p := &pat{rec: rec, ops: make([]patOp, len(fs))}
 	bad := -1
-	if mode == 1 && len(fs) > 0 {
+	if (mode == 1 || mode == 3) && len(fs) > 0 {
 		bad = r.Intn(len(fs))
 	}
 	for i, f := range fs {
-		optional := f.IsOptional || f.DefaultValue != nil
+		optional := patOptional(f)
 		sub := s.recordOf(f.Type)
 		var choices []int // 0 none 1 delete 2 set 3 nested
 		choices = append(choices, 0, 0, 2)
@@ -110,18 +169,30 @@ func (s *Schema) genPat(r *hx.Rand, rec string, depth int, mode int, top bool) *
 			choices = append(choices, 3)
 		}
 		c := choices[r.Intn(len(choices))]
+		if mode == 3 && i == bad {
+			c = 2
+		}
 		mk := func(c int) {
 			switch c {
 			case 1:
 				p.ops[i].del = true
 			case 2:
 				p.ops[i].set = s.gen(r, f.Type, genOpts{utf8: true, depth: 1})
+				if mode == 3 && i == bad {
+					// a value that violates a union / enum constraint, when the field's type has one
+					for try := 0; try < 8; try++ {
+						if v := s.gen(r, f.Type, genOpts{utf8: true, invalid: true, depth: 1}); !s.valid(f.Type, v) {
+							p.ops[i].set = v
+							break
+						}
+					}
+				}
 			case 3:
 				p.ops[i].nested = s.genPat(r, sub, depth-1, 0, false)
 			}
 		}
 		mk(c)
-		if i == bad {
+		if mode == 1 && i == bad {
 			// add a second operation on the same field when the struct can express it
 			var second []int
 			for _, d := range []int{1, 2, 3} {
@@ -138,7 +209,7 @@ func (s *Schema) genPat(r *hx.Rand, rec string, depth int, mode int, top bool) *
 	if mode == 2 {
 		var req []string
 		for _, f := range fs {
-			if !f.IsOptional && f.DefaultValue == nil {
+			if !patOptional(f) {
 				req = append(req, f.Name)
 			}
 		}
@@ -158,6 +229,46 @@ func (s *Schema) genPat(r *hx.Rand, rec string, depth int, mode int, top bool) *
 		p.unknown = []string{"nosuchfield"}
 	}
 	return p
+}
+
+// every combination of the operations the struct can express on every field (records with few fields); nested patches drawn
+// from `nested`
+func (s *Schema) enumPats(r *hx.Rand, rec string, nested func(sub string) []*pat) []*pat {
+	fs := s.flatFieldsOf(rec)
+	out := []*pat{{rec: rec, ops: make([]patOp, len(fs))}}
+	for i, f := range fs {
+		var opts []patOp
+		dels := []bool{false}
+		if patOptional(f) {
+			dels = append(dels, true)
+		}
+		nps := []*pat{nil}
+		if sub := s.recordOf(f.Type); sub != "" {
+			nps = append(nps, nested(sub)...)
+		}
+		sv := s.gen(r, f.Type, genOpts{utf8: true, depth: 1})
+		for _, d := range dels {
+			for _, st := range []bool{false, true} {
+				for _, np := range nps {
+					o := patOp{del: d, nested: np}
+					if st {
+						o.set = sv
+					}
+					opts = append(opts, o)
+				}
+			}
+		}
+		var next []*pat
+		for _, base := range out {
+			for _, o := range opts {
+				c := &pat{rec: rec, ops: append([]patOp{}, base.ops...)}
+				c.ops[i] = o
+				next = append(next, c)
+			}
+		}
+		out = next
+	}
+	return out
 }
 
 // the document an assignment denotes (independent of the library)
@@ -208,7 +319,7 @@ func (s *Schema) patDoc(p *pat, r *hx.Rand) *Doc {
 	return d
 }
 
-// assignment -> generated struct (root layout: Delete_Fields{<F> bool} (absent when nothing is deletable), Set_Fields{<F> *T}, <F> *X_PartialUpdate)
+// assignment -> generated struct (root layout: Delete_Fields{<F> bool} (deletable fields only), Set_Fields{<F> *T}, <F> *X_PartialUpdate)
 func (s *Schema) patToGo(p *pat, dst reflect.Value) {
 	fs := s.flatFieldsOf(p.rec)
 	for i, o := range p.ops {
@@ -266,6 +377,9 @@ func (s *Schema) patEq(got, want *pat) bool {
 }
 
 func (s *Schema) patDescribe(p *pat) interface{} {
+	if p == nil {
+		return nil
+	}
 	fs := s.flatFieldsOf(p.rec)
 	m := map[string]interface{}{}
 	for i, o := range p.ops {
@@ -292,11 +406,184 @@ func (s *Schema) patDescribe(p *pat) interface{} {
 	return m
 }
 
+// ---- the Coq side: Codec.RootPatch.rpatch, one slot per flattened field in generation order; set values in the schema's shape
+func (s *Schema) patCoq(p *pat) string {
+	ds := make([]string, len(p.ops))
+	ss := make([]*Val, len(p.ops))
+	ns := make([]string, len(p.ops))
+	for i, o := range p.ops {
+		ds[i] = hx.CoqBool(o.del)
+		ss[i] = o.set
+		if o.nested == nil {
+			ns[i] = "None"
+		} else {
+			ns[i] = "(Some " + s.patCoq(o.nested) + ")"
+		}
+	}
+	return "(RPatch [" + strings.Join(ds, ";") + "] " + coqOptVals(ss) + " [" + strings.Join(ns, ";") + "])"
+}
+
+func (p *pat) vals(out *[]*Val) {
+	if p == nil {
+		return
+	}
+	for _, o := range p.ops {
+		if o.set != nil {
+			*out = append(*out, o.set)
+		}
+		o.nested.vals(out)
+	}
+}
+
+type rpcase struct {
+	name  string
+	excl  []string
+	vals  []*Val
+	texts []string
+	ops   []string
+	dops  []interface{}
+}
+
+func newRPCase(name string, excl []string) *rpcase {
+	return &rpcase{name: name, excl: excl, texts: append([]string{}, baseTexts...)}
+}
+func rpenc(oc outcome, out string) string {
+	if oc.Class == "ok" {
+		return "(RPEncOk " + hx.CoqBytes(out) + ")"
+	}
+	return "(RPEncFail " + coqClass(oc.Class) + ")"
+}
+func (c *rpcase) enc(envelope bool, p *pat, oc outcome, out string) {
+	p.vals(&c.vals)
+	ctor := "RPEncAt "
+	if envelope {
+		ctor = "RPEnc "
+	}
+	c.ops = append(c.ops, ctor+schema.patCoq(p)+" "+rpenc(oc, out))
+	c.dops = append(c.dops, map[string]interface{}{"op": "enc", "envelope": envelope, "patch": schema.patDescribe(p), "outcome": oc, "out": out})
+}
+func (c *rpcase) dec(envelope bool, pre []string, ignore int, data string, oc outcome, got *pat) {
+	c.texts = append(c.texts, candidateTexts(data, 0)...)
+	o := "(RPDecFail " + coqClass(oc.Class) + ")"
+	if oc.Class == "ok" && got != nil {
+		got.vals(&c.vals)
+		o = "(RPDecOk " + schema.patCoq(got) + ")"
+	}
+	if envelope {
+		c.ops = append(c.ops, "RPDec "+hx.CoqBytesList(pre)+" "+fmt.Sprint(ignore)+" "+hx.CoqBytes(data)+" "+o)
+	} else {
+		c.ops = append(c.ops, "RPDecAt "+fmt.Sprint(ignore)+" "+hx.CoqBytes(data)+" "+o)
+	}
+	c.dops = append(c.dops, map[string]interface{}{"op": "dec", "envelope": envelope, "pre": pre, "ignore": ignore, "data": data, "outcome": oc,
+		"decoded": schema.patDescribe(got)})
+}
+func (c *rpcase) coq() string {
+	var fl []floatEnt
+	for _, v := range c.vals {
+		v.floats(&fl)
+	}
+	texts := c.texts
+	for _, f := range fl {
+		texts = append(texts, f.text)
+	}
+	return "{| rc_rec := " + fmt.Sprint(schema.EnvIndex[c.name]) + "; rc_floats := " + coqFloats(fl) + "; rc_parse := " + coqParseTable(texts) +
+		"; rc_excl := " + hx.CoqBytesList(c.excl) + "; rc_ops := [" + strings.Join(c.ops, ";\n  ") + "] |}"
+}
+func (c *rpcase) describe() interface{} {
+	return map[string]interface{}{"mode": "c11p", "module": "root", "type": c.name, "excl": c.excl, "ops": c.dops}
+}
+
+func rpHeader() string {
+	return "From Coq Require Import List ZArith NArith. Import ListNotations.\nFrom Coq.Strings Require Import Byte.\n" +
+		"From GR Require Import Base.Bytes Base.Res Codec.Schema Codec.Doc Codec.RootPatch Gen.FamEnv Corr.RootPatchCorr.\n"
+}
+
 type patchMarshaler interface {
 	MarshalRestLiPatch(restlicodec.Writer) error
 }
 type patchUnmarshaler interface {
 	UnmarshalRestLiPatch(restlicodec.Reader) error
+}
+
+// ---- running the implementation
+// MarshalRestLiPatch directly on a compact JSON writer WithExcludedFields (envelope = false) or MarshalRestLi (the "patch" envelope)
+func (s *Schema) encodePat(T reflect.Type, p *pat, spec restlicodec.PathSpec, envelope bool) (string, outcome) {
+	ptr := reflect.New(T)
+	s.patToGo(p, ptr.Elem())
+	if envelope {
+		return encode(ptr, 0, spec)
+	}
+	var out string
+	var err error
+	var pn interface{}
+	func() {
+		defer func() { pn = recover() }()
+		w := restlicodec.NewCompactJsonWriterWithExcludedFields(spec)
+		err = ptr.Interface().(patchMarshaler).MarshalRestLiPatch(w)
+		if err == nil {
+			out = w.Finalize()
+		}
+	}()
+	return out, classify(err, pn)
+}
+
+// f: 0 JSON, 2 ROR2; direct: UnmarshalRestLiPatch on the reader at the start of the input (leadingScopeToIgnore = ignore)
+func (s *Schema) decodePatAt(T reflect.Type, rec string, f int, text string, spec restlicodec.PathSpec, ignore int) (outcome, *pat) {
+	ptr := reflect.New(T)
+	var err error
+	var pn interface{}
+	func() {
+		defer func() { pn = recover() }()
+		var rd restlicodec.Reader
+		rd, err = newReader(f, text, spec, ignore)
+		if err != nil {
+			return
+		}
+		err = ptr.Interface().(patchUnmarshaler).UnmarshalRestLiPatch(rd)
+	}()
+	oc := classify(err, pn)
+	if oc.Class == "ok" {
+		return oc, s.patFromGo(rec, ptr.Elem())
+	}
+	return oc, nil
+}
+
+// UnmarshalRestLi (the "patch" envelope); pre = nil: a partial_update body; pre = [entities, key]: inside a batch_partial_update body
+func (s *Schema) decodePatEnv(T reflect.Type, rec string, pre []string, data string, spec restlicodec.PathSpec, ignore int) (outcome, *pat) {
+	var err error
+	var pn interface{}
+	ptr := reflect.New(T)
+	func() {
+		defer func() { pn = recover() }()
+		body := data
+		for i := len(pre) - 1; i >= 0; i-- {
+			body = "{" + jsonString(pre[i], jsonStyle{}) + ":" + body + "}"
+		}
+		var rd restlicodec.Reader
+		rd, err = restlicodec.NewJsonReaderWithExcludedFields([]byte(body), spec, ignore)
+		if err != nil {
+			return
+		}
+		um := ptr.Interface().(restlicodec.Unmarshaler)
+		var descend func(r restlicodec.Reader, rest []string) error
+		descend = func(r restlicodec.Reader, rest []string) error {
+			if len(rest) == 0 {
+				return um.UnmarshalRestLi(r)
+			}
+			return r.ReadMap(func(r restlicodec.Reader, key string) error {
+				if key == rest[0] {
+					return descend(r, rest[1:])
+				}
+				return r.Skip()
+			})
+		}
+		err = descend(rd, pre)
+	}()
+	oc := classify(err, pn)
+	if oc.Class == "ok" {
+		return oc, s.patFromGo(rec, ptr.Elem())
+	}
+	return oc, nil
 }
 
 // generic JSON equality of two texts (object member order and number spelling aside from json.Number text)
@@ -343,12 +630,17 @@ func normJSON(x interface{}) interface{} {
 }
 
 func runRootPatch(cfg *hx.Config) {
-	rep := hx.NewReport("ROOT bindings, partial updates: for every record type of the family (fields flattened through includes) seeded assignments of a subset of " +
-		"{delete, set v, nested patch} to each field (recursively, depth <= 2), legal ones and ones carrying exactly one illegality (two operations on one field; a touched " +
-		"excluded field; documents only: $delete naming a required field), x (a) MarshalRestLiPatch with the compact JSON writer (with / without excluded fields): fails iff " +
-		"illegal, else the output is the patch document of the assignment; (b) the patch document (independent renderer, keys permuted, JSON and ROR2) through " +
-		"UnmarshalRestLiPatch (with / without excluded fields): fails iff illegal, else yields the assignment back. Oracle only (the v2 patch model does not describe the root " +
-		"generator's code). non-trivial = the assignment is illegal or has a nested patch; distinct by (type, document)")
+	rep := hx.NewReport("ROOT bindings, partial updates: for every record type of the family (fields flattened through includes) assignments of a subset of " +
+		"{delete, set v, nested patch} to each field (recursively, depth <= 2): exhaustive over the operations of every field for records with at most 3 fields, seeded for all; " +
+		"legal ones and ones carrying exactly one illegality (two operations on one field; a touched excluded field - top-level or inside a nested patch; an invalid set value; " +
+		"documents only: $delete naming a required field), x exclusion specs (none; one field; a field of a record-typed field) x (a) MarshalRestLiPatch and MarshalRestLi " +
+		"(the patch envelope) with the compact JSON writer WithExcludedFields: fail iff illegal, else the output is the patch document of the assignment; (b) the patch document " +
+		"(independent renderer, keys permuted, JSON and ROR2) through UnmarshalRestLiPatch, and (JSON) inside the patch envelope through UnmarshalRestLi with leadingScopeToIgnore 1 " +
+		"and below entities/key with 3: fail iff illegal or a set value carries an excluded member, else yield the assignment back; (c) the emitted bytes read back; hand-written " +
+		"documents (unknown names, operators of the wrong shape, null operators, missing / null patch, extra envelope keys, set-and-delete, excluded set / delete / nested). " +
+		"Every JSON operation is also a case for the model Codec/RootPatch.v (Corr/RootPatchCorr.v). non-trivial = the assignment is illegal, has a nested patch, or a spec is present; " +
+		"distinct by (type, spec, document)")
+	sh := hx.NewShards(cfg.Out, rpHeader(), "RootPatchCorr", 40)
 	r := hx.NewRand(cfg.Seed)
 	n := 60
 	if cfg.Thorough() {
@@ -360,105 +652,312 @@ func runRootPatch(cfg *hx.Config) {
 			recs = append(recs, name)
 		}
 	}
-	for _, rec := range recs {
-		T, ok := patchRegistry[rec]
-		if !ok {
-			continue
-		}
-		fs := schema.flatFieldsOf(rec)
-		for i := 0; i < n; i++ {
-			mode := []int{0, 0, 1, 2}[r.Intn(4)]
-			p := schema.genPat(r, rec, 2, mode, true)
-			// exclusion: sometimes exclude one top-level field (touched or not)
-			excl := map[string]bool{}
-			var spec restlicodec.PathSpec
-			var exclNames []string
-			if mode == 0 && r.Chance(35) && len(fs) > 0 {
-				f := fs[r.Intn(len(fs))].Name
-				excl[f] = true
-				exclNames = []string{f}
-				spec = restlicodec.NewPathSpec(f)
-			}
-			why := schema.patIllegal(p, excl)
-			doc := schema.patDoc(p, r)
-			desc := map[string]interface{}{"type": rec, "assignment": schema.patDescribe(p), "excluded": exclNames, "module": "root"}
-			nested := false
-			for _, o := range p.ops {
-				nested = nested || o.nested != nil
-			}
-			rep.Count("illegal=" + why)
 
-			// ---- (a) encode (the struct cannot express $delete of a required field / unknown names)
-			if len(p.delNames) == 0 && len(p.unknown) == 0 {
-				ptr := reflect.New(T)
-				schema.patToGo(p, ptr.Elem())
-				var out string
-				var err error
-				var pn interface{}
-				func() {
-					defer func() { pn = recover() }()
-					w := restlicodec.NewCompactJsonWriterWithExcludedFields(spec)
-					err = ptr.Interface().(patchMarshaler).MarshalRestLiPatch(w)
-					if err == nil {
-						out = w.Finalize()
-					}
-				}()
+	evalPat := func(rec string, T reflect.Type, p *pat, ds []string, full bool) {
+		var spec restlicodec.PathSpec
+		if len(ds) > 0 {
+			spec = restlicodec.NewPathSpec(ds...)
+		}
+		tds := trimAll(ds)
+		why := schema.patIllegal(p, tds, nil)
+		valid := schema.patAllValid(p)
+		carry := why == "" && schema.patCarries(p, tds, nil)
+		c := newRPCase(rec, ds)
+		desc := map[string]interface{}{"type": rec, "assignment": schema.patDescribe(p), "excluded": ds, "module": "root"}
+		nested := false
+		for _, o := range p.ops {
+			nested = nested || o.nested != nil
+		}
+		rep.Count("illegal=" + why)
+		rep.Count("type=" + rec)
+		if carry {
+			rep.Count("set-value-carries-excluded")
+		}
+
+		// ---- (a) encode (the struct cannot express $delete of a required field / unknown names)
+		var outs []string
+		if len(p.delNames) == 0 && len(p.unknown) == 0 {
+			for _, envelope := range []bool{false, true} {
+				out, oc := schema.encodePat(T, p, spec, envelope)
+				c.enc(envelope, p, oc, out)
 				rep.Evaluations++
-				want := schema.patDoc(p, nil)
-				cd := map[string]interface{}{"op": "encode", "case": desc, "out": out}
+				var want *Doc
+				if why == "" && !carry {
+					want = schema.patDoc(p, nil)
+					if envelope {
+						want = &Doc{Kind: "obj", Keys: []string{"patch"}, Items: []*Doc{want}}
+					}
+				}
+				cd := map[string]interface{}{"op": "encode", "envelope": envelope, "case": desc, "out": out}
 				site := "codegen/types/record_partial_update.go (root) MarshalRestLiPatch"
 				switch {
-				case pn != nil:
-					rep.Fail("patch:panic:encode", "MarshalRestLiPatch panicked", site, cd, fmt.Sprint(pn))
-				case why != "" && err == nil:
+				case oc.Class == "panic":
+					rep.Fail("patch:panic:encode", "MarshalRestLiPatch panicked", site, cd, oc.Text)
+				case why != "" && oc.Class == "ok":
 					rep.Fail("patch:encode-accepts-illegal:"+why, "an illegal partial update was emitted", site, cd, nil)
-				case why == "" && err != nil:
-					rep.Fail("patch:encode-rejects-legal", "a legal partial update was rejected by the encoder", site, cd, err.Error())
-				case why == "" && want.jsonOK() && !sameJSON(out, want.render(0, nil, false)):
+				case why == "" && oc.Class != "ok":
+					rep.Fail("patch:encode-rejects-legal", "a legal partial update was rejected by the encoder", site, cd, oc.Text)
+				case why == "" && !carry && want.jsonOK() && !sameJSON(out, want.render(0, nil, false)):
 					rep.Fail("patch:encode-wrong-shape", "the emitted patch is not the $delete / $set / nested shape of the assignment", site, cd, want.render(0, nil, false))
 				}
+				if why == "" && !carry && oc.Class == "ok" && !envelope {
+					outs = append(outs, out)
+				}
 			}
+		}
 
-			// ---- (b) decode
+		// ---- (b) decode the protocol's document (a set value that violates a constraint has no document)
+		if valid {
+			doc := schema.patDoc(p, r)
+			mustReject := why != "" || carry
+			judge := func(what string, f int, text string, oc outcome, got *pat, cd map[string]interface{}) {
+				site := "codegen/types/record_partial_update.go (root) UnmarshalRestLiPatch"
+				reason := why
+				if reason == "" && carry {
+					reason = "set-value-carries-excluded"
+				}
+				switch {
+				case oc.Class == "panic":
+					rep.Fail("patch:panic:decode", "UnmarshalRestLiPatch panicked", site, cd, oc.Text)
+				case mustReject && oc.Class == "ok":
+					rep.Fail("patch:decode-accepts-illegal:"+reason, "a document denoting an illegal partial update was accepted", site, cd, nil)
+				case !mustReject && oc.Class != "ok":
+					rep.Fail("patch:decode-rejects-legal", "a document denoting a legal partial update was rejected", site, cd, oc.Text)
+				case !mustReject:
+					if !schema.patEq(got, p) {
+						rep.Fail("patch:decode-wrong-value", "the decoded partial update is not the assignment the document denotes", site, cd, schema.patDescribe(got))
+					}
+				}
+			}
 			for _, f := range []int{0, 2} {
 				if f == 0 && !doc.jsonOK() {
 					continue
 				}
 				text := doc.render(f, r, false)
-				ptr := reflect.New(T)
-				var err error
-				var pn interface{}
-				func() {
-					defer func() { pn = recover() }()
-					var rd restlicodec.Reader
-					rd, err = newReader(f, text, spec, 0)
-					if err != nil {
-						return
-					}
-					err = ptr.Interface().(patchUnmarshaler).UnmarshalRestLiPatch(rd)
-				}()
+				oc, got := schema.decodePatAt(T, rec, f, text, spec, 0)
 				rep.Evaluations++
-				rep.Distinct(rec+formats[f]+text, why != "" || nested)
+				rep.Distinct(rec+"|"+strings.Join(ds, ",")+"|"+formats[f]+text, why != "" || nested || len(ds) > 0)
 				cd := map[string]interface{}{"op": "decode", "format": formats[f], "document": text, "case": desc}
-				site := "codegen/types/record_partial_update.go (root) UnmarshalRestLiPatch"
-				switch {
-				case pn != nil:
-					rep.Fail("patch:panic:decode", "UnmarshalRestLiPatch panicked", site, cd, fmt.Sprint(pn))
-				case why != "" && err == nil:
-					rep.Fail("patch:decode-accepts-illegal:"+why, "a document denoting an illegal partial update was accepted", site, cd, nil)
-				case why == "" && err != nil:
-					rep.Fail("patch:decode-rejects-legal", "a document denoting a legal partial update was rejected", site, cd, err.Error())
-				case why == "":
-					got := schema.patFromGo(rec, ptr.Elem())
-					if !schema.patEq(got, p) {
-						rep.Fail("patch:decode-wrong-value", "the decoded partial update is not the assignment the document denotes", site, cd, schema.patDescribe(got))
+				judge("direct", f, text, oc, got, cd)
+				if f == 0 {
+					c.dec(false, nil, 0, text, oc, got)
+					// the same document inside the envelope: a partial_update body, and one entity of a batch_partial_update body
+					env := "{\"patch\":" + text + "}"
+					modes := []struct {
+						pre    []string
+						ignore int
+					}{{nil, 1}}
+					if full {
+						modes = append(modes, struct {
+							pre    []string
+							ignore int
+						}{[]string{"entities", "k1"}, 3})
+					}
+					for _, m := range modes {
+						oc, got := schema.decodePatEnv(T, rec, m.pre, env, spec, m.ignore)
+						c.dec(true, m.pre, m.ignore, env, oc, got)
+						rep.Evaluations++
+						cd := map[string]interface{}{"op": "decode", "format": "json", "envelope": true, "pre": m.pre, "ignore": m.ignore, "document": env, "case": desc}
+						judge("envelope", 0, env, oc, got, cd)
 					}
 				}
 				if why != "" && f == 0 {
 					rep.Sample(cd)
 				}
 			}
+			// ---- (c) what the encoder emitted is read back
+			for _, out := range outs {
+				oc, got := schema.decodePatAt(T, rec, 0, out, spec, 0)
+				c.dec(false, nil, 0, out, oc, got)
+				rep.Evaluations++
+				cd := map[string]interface{}{"op": "decode", "format": "json", "document": out, "emitted": true, "case": desc}
+				judge("emitted", 0, out, oc, got, cd)
+			}
+		}
+		sh.Add(c.coq(), c.describe())
+	}
+
+	// the exclusion specs of one assignment: none; one field (touched or not); a field of a record-typed field
+	pickSpec := func(rec string, mode int) []string {
+		fs := schema.flatFieldsOf(rec)
+		if mode != 0 || len(fs) == 0 || !r.Chance(40) {
+			return nil
+		}
+		f := fs[r.Intn(len(fs))]
+		if sub := schema.recordOf(f.Type); sub != "" && r.Chance(60) {
+			sfs := schema.flatFieldsOf(sub)
+			if len(sfs) > 0 {
+				return []string{f.Name + "/" + sfs[r.Intn(len(sfs))].Name}
+			}
+		}
+		return []string{f.Name}
+	}
+
+	// ---- exhaustive over the operations of every field: records with at most 3 flattened fields
+	for _, rec := range recs {
+		T, ok := patchRegistry[rec]
+		fs := schema.flatFieldsOf(rec)
+		if !ok || len(fs) > 3 {
+			continue
+		}
+		nestedFew := func(sub string) []*pat {
+			return []*pat{{rec: sub, ops: make([]patOp, len(schema.flatFieldsOf(sub)))}, schema.genPat(r, sub, 0, 0, false), schema.genPat(r, sub, 0, 1, false)}
+		}
+		ps := schema.enumPats(r, rec, nestedFew)
+		step := 1
+		if !cfg.Thorough() && len(ps) > 96 {
+			step = len(ps)/96 + 1
+		}
+		specs := [][]string{nil}
+		for _, f := range fs {
+			specs = append(specs, []string{f.Name})
+			if sub := schema.recordOf(f.Type); sub != "" {
+				specs = append(specs, []string{f.Name + "/" + schema.flatFieldsOf(sub)[0].Name})
+			}
+		}
+		cnt := 0
+		for si, ds := range specs {
+			for i := si % step; i < len(ps); i += step {
+				evalPat(rec, T, ps[i], ds, i%4 == 0)
+				cnt++
+			}
+		}
+		rep.Count(fmt.Sprintf("exhaustive:%s=%d of %d x %d specs", rec, cnt, len(ps), len(specs)))
+	}
+
+	// ---- seeded
+	for _, rec := range recs {
+		T, ok := patchRegistry[rec]
+		if !ok {
+			continue
+		}
+		for i := 0; i < n; i++ {
+			mode := []int{0, 0, 0, 1, 2, 3}[r.Intn(6)]
+			p := schema.genPat(r, rec, 2, mode, true)
+			evalPat(rec, T, p, pickSpec(rec, mode), i%3 == 0)
 		}
 	}
+
+	// ---- hand-written documents
+	type hdoc struct {
+		name  string
+		ds    []string
+		body  *Doc // the value of "patch" (nil: use whole)
+		whole *Doc
+		must  string // accept | reject
+		zero  bool   // for accept: the zero struct must come out
+		tag   string
+	}
+	str := func(s string) *Doc { return &Doc{Kind: "str", S: s} }
+	arr := func(items ...*Doc) *Doc { return &Doc{Kind: "arr", Items: items} }
+	obj := func(kv ...interface{}) *Doc {
+		d := &Doc{Kind: "obj"}
+		for i := 0; i < len(kv); i += 2 {
+			d.Keys = append(d.Keys, kv[i].(string))
+			d.Items = append(d.Items, kv[i+1].(*Doc))
+		}
+		return d
+	}
+	num := func(z int64) *Doc { return &Doc{Kind: "int", Z: z} }
+	null := &Doc{Kind: "null"}
+	var hds []hdoc
+	for _, name := range recs {
+		if _, ok := patchRegistry[name]; !ok {
+			continue
+		}
+		fs := schema.flatFieldsOf(name)
+		if len(fs) > 16 && !cfg.Thorough() {
+			continue
+		}
+		hds = append(hds,
+			hdoc{name: name, body: obj("$delete", arr(str("nosuchfield"))), must: "accept", zero: true, tag: "unknown-delete"},
+			hdoc{name: name, body: obj("$set", obj("nosuchfield", num(1))), must: "accept", zero: true, tag: "unknown-set"},
+			hdoc{name: name, body: obj("nosuchfield", obj("$set", obj("a", num(1)))), must: "accept", zero: true, tag: "unknown-nested"},
+			hdoc{name: name, body: obj("$delete", str("x")), must: "reject", tag: "delete-not-array"},
+			hdoc{name: name, body: obj("$delete", arr(num(1))), must: "reject", tag: "delete-item-not-string"},
+			hdoc{name: name, body: obj("$set", arr()), must: "reject", tag: "set-not-object"},
+			hdoc{name: name, body: obj("$set", null, "$delete", null), must: "accept", zero: true, tag: "null-operators"},
+			hdoc{name: name, body: arr(), must: "reject", tag: "patch-not-object"},
+			hdoc{name: name, body: obj(), must: "accept", zero: true, tag: "empty-patch"},
+			hdoc{name: name, whole: obj(), must: "reject", tag: "no-patch"},
+			hdoc{name: name, whole: obj("patch", null), must: "reject", tag: "null-patch"},
+			hdoc{name: name, whole: obj("other", num(1), "patch", obj(), "more", arr(str("x"))), must: "accept", zero: true, tag: "extra-keys"},
+		)
+		for _, f := range fs {
+			sv := schema.gen(r, f.Type, genOpts{utf8: true, depth: 1})
+			if !patOptional(f) {
+				hds = append(hds, hdoc{name: name, body: obj("$delete", arr(str(f.Name))), must: "reject", tag: "required-delete"})
+				hds = append(hds, hdoc{name: name, body: obj("$delete", arr(str("nosuchfield"), str(f.Name))), must: "reject", tag: "required-delete-after-unknown"})
+				hds = append(hds, hdoc{name: name, ds: []string{f.Name}, body: obj("$delete", arr(str(f.Name))), must: "reject", tag: "required-delete:excluded"})
+			} else {
+				hds = append(hds, hdoc{name: name, body: obj("$delete", arr(str(f.Name)), "$set", obj(f.Name, schema.refEncode(f.Type, sv))), must: "reject", tag: "delete-and-set"})
+				hds = append(hds, hdoc{name: name, body: obj("$set", obj(f.Name, schema.refEncode(f.Type, sv)), "$delete", arr(str(f.Name), str(f.Name))), must: "reject", tag: "set-and-delete-twice"})
+				hds = append(hds, hdoc{name: name, ds: []string{f.Name}, body: obj("$delete", arr(str(f.Name))), must: "reject", tag: "excluded-delete"})
+			}
+			hds = append(hds, hdoc{name: name, ds: []string{f.Name}, body: obj("$set", obj(f.Name, schema.refEncode(f.Type, sv))), must: "reject", tag: "excluded-set"})
+			if sub := schema.recordOf(f.Type); sub != "" {
+				hds = append(hds, hdoc{name: name, ds: []string{f.Name}, body: obj(f.Name, obj()), must: "reject", tag: "excluded-nested"})
+				hds = append(hds, hdoc{name: name, body: obj(f.Name, obj(), "$set", obj(f.Name, schema.refEncode(f.Type, sv))), must: "reject", tag: "set-and-nested"})
+				hds = append(hds, hdoc{name: name, body: obj(f.Name, obj(), f.Name, obj("$delete", arr(str("nosuchfield")))), must: "accept", tag: "nested-twice"})
+			}
+		}
+	}
+	for _, h := range hds {
+		T := patchRegistry[h.name]
+		whole := h.whole
+		if whole == nil {
+			whole = obj("patch", h.body)
+		}
+		if !whole.jsonOK() {
+			continue
+		}
+		text := whole.render(0, nil, false)
+		var spec restlicodec.PathSpec
+		if len(h.ds) > 0 {
+			spec = restlicodec.NewPathSpec(h.ds...)
+		}
+		c := newRPCase(h.name, h.ds)
+		zero := &pat{rec: h.name, ops: make([]patOp, len(schema.flatFieldsOf(h.name)))}
+		judge := func(oc outcome, got *pat, dd map[string]interface{}) {
+			site := "codegen/types/record_partial_update.go (root) UnmarshalRestLiPatch / Delete_Fields.UnmarshalRestLi"
+			switch {
+			case oc.Class == "panic":
+				rep.Fail("patch:panic:decode", "UnmarshalRestLi of a partial update panicked", site, dd, oc.Text)
+			case h.must == "reject" && oc.Class == "ok":
+				rep.Fail("patch:hand-document-accepted:"+h.tag, "a document denoting an illegal partial update ("+h.tag+") was accepted", site, dd, nil)
+			case h.must == "accept" && oc.Class != "ok":
+				rep.Fail("patch:hand-document-rejected:"+h.tag, "a legal partial-update document ("+h.tag+") was rejected", site, dd, oc.Text)
+			case h.must == "accept" && h.zero && !schema.patEq(got, zero):
+				rep.Fail("patch:hand-document-decoded:"+h.tag, "a legal partial-update document ("+h.tag+") decoded to the wrong struct", site, dd, schema.patDescribe(got))
+			}
+		}
+		for _, mode := range []struct {
+			pre    []string
+			ignore int
+		}{{nil, 1}, {[]string{"entities", "k"}, 3}} {
+			if mode.ignore == 3 && (h.tag == "no-patch" || h.tag == "null-patch") {
+				continue // the missing "patch" is raised by the reader at the start of the input only
+			}
+			oc, got := schema.decodePatEnv(T, h.name, mode.pre, text, spec, mode.ignore)
+			c.dec(true, mode.pre, mode.ignore, text, oc, got)
+			rep.Evaluations++
+			judge(oc, got, map[string]interface{}{"type": h.name, "spec": h.ds, "document": text, "pre": mode.pre, "ignore": mode.ignore, "outcome": oc,
+				"decoded": schema.patDescribe(got), "case": h.tag, "module": "root"})
+		}
+		if h.body != nil && h.body.jsonOK() {
+			// the body alone through UnmarshalRestLiPatch
+			bt := h.body.render(0, nil, false)
+			oc, got := schema.decodePatAt(T, h.name, 0, bt, spec, 0)
+			c.dec(false, nil, 0, bt, oc, got)
+			rep.Evaluations++
+			judge(oc, got, map[string]interface{}{"type": h.name, "spec": h.ds, "document": bt, "direct": true, "outcome": oc,
+				"decoded": schema.patDescribe(got), "case": h.tag, "module": "root"})
+		}
+		rep.Distinct(h.name+"|hand|"+strings.Join(h.ds, ",")+"|"+text, true)
+		rep.Count("hand:" + h.must)
+		sh.Add(c.coq(), c.describe())
+	}
+	sh.Close()
+	rep.Shards = sh.Files
 	rep.Write(cfg.Out)
 }
